@@ -190,7 +190,14 @@ func (h *Sources) Walk(pos int) {
 
 	switch {
 	case h.hpos < -1:
-		h.hpos = -1
+		// Going further down than the line buffer: when coming
+		// from a history line, we are back to the line buffer.
+		if h.hpos-pos > 0 {
+			h.restoreLineBuffer()
+		} else {
+			h.hpos = -1
+		}
+
 		return
 	case h.hpos == 0:
 		h.restoreLineBuffer()
